@@ -215,8 +215,11 @@ def run_impl(s):
         batches.append([float(t) for t in increments.index])
         return orig_integrate(self, increments)
 
+    # back-edges of a correct run: one per outer iteration (<= #epochs), one per pending measurement
+    # epoch, one per sensor inside each epoch, plus the set-up / tear-down loops over the sensors
     nst = sum(len(t) for _, t in s['sensors'])
-    budget = 20 * (len(s['epochs']) + nst) + 200
+    ns = len(s['sensors'])
+    budget = 3 * (len(s['epochs']) + nst * (1 + ns)) + 8 * ns + 40
     codes = [filters.run_feedback_filter.__code__, filters.run_feedforward_filter.__code__]
     kw = dict(gyro_model=inp['gyro_model'], accel_model=inp['accel_model'],
               time_step=_sec(s['step']), with_altitude=bool(s['alt']))
@@ -346,12 +349,6 @@ def property_failures(s, obs):
                     f.append(f"{n}: step from {a} to {b} exceeds max(time_step={s['step']}, local gap={gap})")
                     break
     return f
-
-
-def model_failures(s, obs):
-    """Extra exact expectations that follow from the theorems (not from the property text):
-    used only to describe a correspondence break in words."""
-    return []
 
 
 # --------------------------------------------------------------------------------------
@@ -601,7 +598,7 @@ def coq_compare(kind, pairs, tag):
     m = re.search(r'=\s*(\[.*?\])\s*:\s*list \(nat \* list nat\)', out, re.S)
     if not m:
         return False, {}, out
-    body = m.group(1)
+    body = m.group(1).replace('%nat', '')
     res = {}
     for mm in re.finditer(r'\((\d+),\s*\[([\d;\s]*)\]\)', body):
         res[int(mm.group(1))] = [int(x) for x in mm.group(2).replace(';', ' ').split()]
@@ -732,7 +729,13 @@ def run_many(schedules, jobs=None):
 def correspondence(r, kind, schedules, label, max_report=3):
     """Run schedules on the implementation and on the model; record cases, breaks, violations."""
     t = time.time()
-    results = run_many(schedules)
+    results = []
+    for lo in range(0, len(schedules), 250):      # stop early on a broken tree (failing runs are slow)
+        results += run_many(schedules[lo:lo + 250])
+        if sum(1 for _, f in results if f) >= 5 and len(results) < len(schedules):
+            r.log(f"{label}: property failures found, skipping the remaining {len(schedules) - len(results)} schedules")
+            schedules = schedules[:len(results)]
+            break
     r.log(f"{label}: {len(schedules)} schedules run on the implementation in {time.time() - t:.1f}s")
     dist = r.coverage.setdefault('distribution', collections.Counter())
     ok_pairs = []
